@@ -21,8 +21,12 @@ for p in sorted(glob.glob(src + '/benign-*.diff')):
         print(name, 'DOES NOT APPLY'); continue
     try:
         alarms = {}
-        for pr in props:
-            c = subprocess.run([V + '/check', pr], capture_output=True, text=True, cwd=V)
+        import concurrent.futures as cf
+        run_ = lambda pr: subprocess.run([V + '/check', pr], capture_output=True, text=True, cwd=V)
+        first = run_(props[0])   # extracts the facts of this tree once; the others reuse them
+        with cf.ThreadPoolExecutor(int(os.environ.get('VERIF_JOBS', '6'))) as ex:
+            rest = list(ex.map(run_, props[1:]))
+        for pr, c in zip(props, [first] + rest):
             if c.returncode != 0:
                 viol = re.findall(r'^\s+rule (\S+) .*\n\s+function: (.*)\n\s+instance: (.*)(?:\n\s+site: .*)?\n\s+detail:\s+(.*)', c.stdout, re.M)
                 alarms[pr] = [{'rule': a_, 'fn': b_.strip(), 'instance': i_.strip(), 'detail': d_.strip()[:300]} for a_, b_, i_, d_ in viol] or [{'rule': '?', 'detail': c.stdout[-300:]}]
